@@ -89,7 +89,7 @@ type clReport struct {
 	History    []clOp                       `json:"history,omitempty"`
 	LogTail    map[string]string            `json:"log_tail,omitempty"`
 	Excerpt    []string                     `json:"excerpt,omitempty"` // first not-linearizable key: the first reply without an explanation and its context
-	Links      map[string]int               `json:"links,omitempty"` // proxied scenarios: forwarders, connections piped / closed by a cut / closed on arrival
+	Links      map[string]int               `json:"links,omitempty"`   // proxied scenarios: forwarders, connections piped / closed by a cut / closed on arrival
 	Seconds    float64                      `json:"seconds"`
 	DemoDetail string                       `json:"demo_detail,omitempty"`
 }
@@ -1008,7 +1008,16 @@ func runClusterScenario(bin, scratch string, seed int64, sc clScenario) (rep clR
 			}
 			k := c.isolate(l)
 			note("isolate leader %d: its links to all other nodes cut (%d open connections closed); the process runs and serves clients", l.id, k)
-			awaitNewLeader(l, 7*time.Second)
+			if awaitNewLeader(l, 7*time.Second) == nil {
+				// the guess from the log lines was wrong (the node cut off was not leading): once more with a fresh guess
+				healAndSettle()
+				if l = c.leader(); l == nil {
+					break
+				}
+				k = c.isolate(l)
+				note("isolate leader %d (second attempt): its links to all other nodes cut (%d open connections closed)", l.id, k)
+				awaitNewLeader(l, 7*time.Second)
+			}
 			sleepR(1200, 2200)
 			healAndSettle()
 		case "partition-leader-minority":
@@ -1060,6 +1069,7 @@ func runClusterScenario(bin, scratch string, seed int64, sc clScenario) (rep clR
 				k := c.isolate(n)
 				note("isolate follower %d across a snapshot (%d open connections closed)", n.id, k)
 				before, loads := c.countLog("compacted log at index"), c.countLog("publishing snapshot at index")
+				sleepR(1500, 3000)
 				for w := 0; w < 100 && sc.SnapCount > 0 && c.countLog("compacted log at index") < before+4; w++ {
 					time.Sleep(100 * time.Millisecond)
 				}
